@@ -311,6 +311,11 @@ func c13RunEpSeq(t *testing.T, s *VStream, stats *VStats, r *VRand) {
 		e := c13NewEpEnv()
 		defer func() {
 			e.pool.Close()
+			// endpoints the pool lost track of would keep their read loop blocked past the bubble's end;
+			// the digests above have already shown them as never closed
+			for _, ue := range e.eps {
+				_ = ue.Close()
+			}
 			synctest.Wait()
 		}()
 		s.Emit("ep reset", "ok")
